@@ -209,6 +209,61 @@ def run_container(ctx, case):
              labels=[f"blocks={len(case['blocks'])}"] + [b["spec"]["t"] for b in case["blocks"]])
 
 
+def enum_container_big(tier):
+    """files in which many MiB of block data lie behind a block that is then removed / replaced: every entry's size must still be the
+    number of bytes its block occupies and decodes from (a tail that is moved in pieces shows at the piece boundaries)"""
+    for mib in (1, 4, 17):
+        for action in ("remove-first", "replace-first"):
+            yield {"mib": mib, "action": action}
+
+
+def run_container_big(ctx, case):
+    from basictdf import Tdf
+    from basictdf.tdfBlock import BlockType
+
+    from .c07 import labelled_spec
+
+    n = case["mib"] * (1 << 20) // 4 + 1000
+    big = {"t": "emg", "format": 1, "frequency": 1000, "startTime": 0, "nSamples": n, "_chmode": "explicit",
+           "signals": [{"label": "long recording", "channel": 0, "frames": [0x3F800000 + (j & 0xFFFF) for j in range(n)]}]}
+    specs_ = [labelled_spec("events", 2), big, labelled_spec("optical", 2), labelled_spec("platCal", 1)]
+    d = env.fresh_dir()
+    try:
+        path = os.path.join(d, "big.tdf")
+        enc = {}
+        with Tdf.new(path).allow_write() as f:
+            for sp in specs_:
+                blk = specs.build(sp)
+                enc[sp["t"]] = specs.lib_write(blk, sink="fresh")
+                f.add_block(blk)
+        with Tdf(path).allow_write() as f:
+            if case["action"] == "remove-first":
+                f.remove_block(BlockType(reftdf.TYPE_CODE["events"]))
+                enc.pop("events")
+            else:
+                nb = specs.build(labelled_spec("events", 3))
+                enc["events"] = specs.lib_write(nb, sink="fresh")
+                f.replace_block(nb)
+        data = open(path, "rb").read()
+        parsed = reftdf.parse_container(data)
+        lv = reftdf.live(parsed)
+        for k, (i, e) in enumerate(lv):
+            t = reftdf.CODE_TYPE[e["type"]]
+            nxt = lv[k + 1][1]["offset"] if k + 1 < len(lv) else len(data)
+            if e["size"] != len(enc[t]) or nxt - e["offset"] != e["size"]:
+                ctx.fail(f"container-big/{t}/entry-size", f"{t}: entry size {e['size']}, the block encodes to {len(enc[t])} bytes, the next block / EOF is {nxt - e['offset']} bytes away")
+            elif data[e["offset"]:e["offset"] + e["size"]] != enc[t]:
+                ctx.fail(f"container-big/{t}/stored-bytes", f"{t}: after {case['action']} with {case['mib']} MiB behind the touched block, the bytes at this entry's offset are not "
+                                                            f"the block's encoding")
+            if t != "emg":
+                ok, res = ctx.must(lambda: specs.lib_decode(t, e["format"], data[e["offset"]:e["offset"] + e["size"]]), f"container-big/{t}/decode", f"decoding the stored {t} block")
+                if ok and res[1] != e["size"]:
+                    ctx.fail(f"container-big/{t}/consumed", f"{t}: decode consumed {res[1]} of the {e['size']} bytes the entry declares")
+    finally:
+        env.rmdir(d)
+    ctx.case(case, True, labels=[f"behind={case['mib']}MiB", case["action"]])
+
+
 def edits_strategy(tier):
     types = ["emg", "platCal", "data3D", "force3D", "events", "optical", "platData", "data2D", "events"]
     return st.sampled_from(types).flatmap(lambda t: st.fixed_dictionaries({
@@ -389,6 +444,9 @@ SUBS = [
              "finite, enumerated", nontrivial_required=False),
     Sub("capture", run_capture, kind="enum", enumerate=enum_capture, shards=(1, 1),
         rule="the 8 blocks of the BTS-recorded capture vs. the sizes in its jump table (finite, enumerated)"),
+    Sub("container-big", run_container_big, kind="enum", enumerate=enum_container_big, shards=(6, 6),
+        rule="a file with 1 / 4 / 17 MiB of block data behind its first block, which is removed or replaced: every entry's size = bytes occupied = bytes decoded; finite, enumerated",
+        nontrivial_required=False),
     Sub("container", run_container, strategy=container_strategy, budget=(150, 4000), shards=(2, 16),
         rule="1..4 generated blocks of distinct types added to a new file; entry sizes vs. independent parse of the file"),
 ]
